@@ -151,6 +151,9 @@ def units(tier):
                 continue
             u.append(("decode[%s | %s]" % (name, knob), h_decode, {"cat": c, "knob": knob}))
     u.append(("oneof-members-any-order", h_oneof_dup, {}))
+    from .c01 import two_units
+
+    u += two_units()
     return u
 
 
